@@ -17,7 +17,7 @@ from checks import c02, c07, c12
 
 PROP = "C14"
 NOMEM = "org.freedesktop.DBus.Error.NoMemory"
-OPS = ("copy", "edit", "build", "demarshal", "loader", "matchrule", "config")
+OPS = ("copy", "edit", "build", "demarshal", "loader", "matchrule", "config", "fdappend")
 
 RULE_LIB = ("library part (harness/h_oom.c, libdbus' own injector _dbus_set_fail_alloc_counter / _failures): for every "
             "case the index k of the failing dbus_malloc/realloc is enumerated 0,1,2,... until the operation completes "
@@ -229,8 +229,13 @@ def fd_order(data, nfds):
 
 def gen_case(rng, stats):
     """Returns the harness line of one case."""
-    op = rng.choice(["copy"] * 3 + ["edit"] * 5 + ["build"] * 4 + ["demarshal"] * 2 + ["loader"] * 4 + ["matchrule"] * 2 + ["config"] * 2)
+    op = rng.choice(["copy"] * 3 + ["edit"] * 5 + ["build"] * 4 + ["demarshal"] * 2 + ["loader"] * 4 + ["matchrule"] * 2 + ["config"] * 3)
     if op == "config":
+        if rng.random() < 0.35:
+            # descriptors appended to a message under construction: the path length moves the header's padding and
+            # capacity boundaries, the shape decides which append meets the UNIX_FDS header update
+            path = b"/" + b"/".join(b"p" * rng.randint(1, 9) for _ in range(rng.randint(1, 12)))
+            return "fdappend %d x%s %s" % (rng.randint(0, 1), path.hex(), rng.choice(["h", "hh", "sh", "args", "ah", "(hs)", "v"]))
         return "config %d x%s" % (rng.randint(0, 1), _config_text(rng).encode().hex())
     warm = rng.randint(0, 1)
     if op == "copy":
@@ -681,6 +686,21 @@ class _Judge(object):
                 self.bad("wrong-error", "parse under an injected failure gives %r, reference %r" % (run["err"], refc), run)
             self.outcome(run, failed)
 
+    def fdappend(self, runs):
+        ref = runs[0]
+        if not ref.get("ok"):
+            self.bad("reference-failed", "appending descriptors failed without any injected failure", ref)
+            return
+        for run in runs:
+            self.common(run)          # block leak and open-descriptor count (fd_delta) are checked there
+            failed = not run["ok"]
+            if failed:
+                if not run["fired"]:
+                    self.bad("failure-without-fault", "an append failed although no failure was injected", run)
+                if run.get("retry_ok") != 1:
+                    self.bad("retry-differs", "appending the descriptors again after the failure did not succeed", run)
+            self.outcome(run, failed)
+
     def config(self, runs):
         ref = runs[0]
         refc = "ok" if ref.get("cfg") is not None else ref["err"]
@@ -812,7 +832,7 @@ def run_part(r, b, tier, seed, scale=1.0):
     r.require("lib:faults-fired", per * nshards * 8 if full else 1)
     if full:
         for op in OPS:
-            r.require("lib:" + op, 50 if op != "config" else 30)
+            r.require("lib:" + op, 50 if op not in ("config", "fdappend") else 30)
             r.require("lib:%s:failed-cleanly" % op, 50)
         r.require("lib:k-values-burst", 1000)
         r.require("lib:loader:runs-with-descriptors", 500)
